@@ -137,6 +137,10 @@ def analyse_unit(unit, repo, scratch, tier, seed, cfg):
         res["notes"].append("const auto-extraction skipped: %r" % e)
     fns = extract.fn_table(text)
     res["items"] = meta["items"]
+    for it in meta["items"]:
+        for w in it.get("rewrites", []):
+            if w.get("id") == "R16":
+                res["notes"].append("R16 ghost text of %s :: %s adapted to renamed identifiers %s (real code untouched)" % (it["file"], it["path"], w["ghost_text_adapted_to_renamed_identifiers"]))
     res["gen_sha256"] = hashlib.sha256(text.encode()).hexdigest()
     # trusted-base scan
     scan = extract.trusted_scan(text)
@@ -259,7 +263,9 @@ def analyse_unit(unit, repo, scratch, tier, seed, cfg):
             "gen_line": site_line, "clause_gen_line": cl_line, "repo_location": orig, "tags": tags, "tag_level": level,
             # the failing statement is spliced PROOF TEXT (an assert / lemma call of a //@before|after|bodystart hint), not a
             # clause of the function's contract and not real code
-            "in_hint": bool(m.get("kind") == "ghost" and m.get("tag") in ("ghost-proof", "ghost-body")),
+            "in_hint": bool((m.get("kind") == "ghost" and m.get("tag") in ("ghost-proof", "ghost-body"))
+                            or (f is not None and "sig_line" in f and lm[f["sig_line"] - 1].get("item") is not None
+                                and meta["items"][lm[f["sig_line"] - 1]["item"]].get("adapted"))),
         })
     # functions that failed in the breakdown but produced no diagnostic we understood -> undecided
     if res["errors"] and not res["failures"] and not res["undecided"]:
@@ -523,7 +529,7 @@ def main():
                 "masked_by_known_findings": [dict({"finding": e["id"], "function": f.get("function"), "clause": f.get("clause")},
                                                   **{k: f[k] for k in ("harness", "witness") if f.get(k)}) for f, e in masked],
                 "failed_obligations_outside_this_property": [{"function": f.get("function"), "tags": f.get("tags"), "message": f.get("message")} for f in others],
-                "undecided": undecided, "notes": defect_notes,
+                "undecided": undecided, "notes": defect_notes + ["%s: %s" % (r["unit"], n) for r in results for n in (r.get("notes") or [])],
                 "not_decided_parts": pcfg.get("not_decided", []),
                 "exhaustive": False,
             },
